@@ -1042,9 +1042,9 @@ func (s *State) evalForSpecialForms(fe *ast.ForExpression) (object.Object, bool)
 	}
 	name := ie.Left.Value().Literal()
 	if object.Constant(name) {
-		if _, bound := s.env.Get(name); bound {
-			return s.Errorf("attempt to use constant %s as a loop variable", name), true
-		}
+		// bound already or not: a loop variable changes at every iteration, a constant can't (and what
+		// happened used to depend on whether the variable got a register).
+		return s.Errorf("attempt to use constant %s as a loop variable", name), true
 	}
 	if ie.Right.Value().Type() == token.COLON {
 		start := s.evalInternal(ie.Right.(*ast.InfixExpression).Left)
